@@ -28,10 +28,16 @@ const (
 	EvUnlock
 	EvBegin
 	EvEnd
+	EvChanSend    // blocking send: waits for room
+	EvChanRecv    // blocking receive: waits for an element or close
+	EvChanTrySend // select-with-default send
+	EvChanTryRecv // select-with-default receive
+	EvChanClose
 )
 
 var evName = map[EvKind]string{EvLoad: "load", EvStore: "store", EvAdd: "add", EvCAS: "cas", EvSwap: "swap",
-	EvLock: "lock", EvUnlock: "unlock", EvBegin: "atomic-begin", EvEnd: "atomic-end"}
+	EvLock: "lock", EvUnlock: "unlock", EvBegin: "atomic-begin", EvEnd: "atomic-end",
+	EvChanSend: "chan-send", EvChanRecv: "chan-recv", EvChanTrySend: "chan-trysend", EvChanTryRecv: "chan-tryrecv", EvChanClose: "chan-close"}
 
 type Event struct {
 	Idx    int
@@ -47,6 +53,10 @@ type Event struct {
 	Where  string
 	Lock   string // lock key
 	Cands  []int
+	GoKey  string // Go-object scalar cell / channel key
+	GoObj  *Obj
+	GoPath []Sel
+	Cap    int
 }
 
 type Thread struct {
@@ -305,9 +315,13 @@ func (e *Engine) sharedStore(st *State, alt PtrAlt, v Value, typ types.Type, whe
 
 func (e *Engine) sharedAtomic(st *State, kind string, p PtrV, et types.Type, a, b Value, site string) (Value, bool) {
 	c := e.C
-	// all targets must be shared bytes, else fall back to the sequential model
+	// targets: shared byte regions, or scalar fields of Go objects created before the threads
+	// (those become shared cells); thread-local objects use the sequential model
 	for _, al := range p.Alts {
-		if al.Obj == nil || al.Obj.Shared == nil {
+		if al.Obj == nil {
+			return nil, false
+		}
+		if al.Obj.Shared == nil && !(al.Obj.Kind == KVal && al.Obj.Thread != st.Th.ID) {
 			return nil, false
 		}
 	}
@@ -316,6 +330,9 @@ func (e *Engine) sharedAtomic(st *State, kind string, p PtrV, et types.Type, a, 
 	}
 	alt := p.Alts[0]
 	o := alt.Obj
+	if o.Shared == nil {
+		return e.goCellAtomic(st, kind, alt, et, a, b, site), true
+	}
 	off := alt.Path[len(alt.Path)-1]
 	n := typeSize(et)
 	e.checkRaw(st, c.True, o, off, n, site)
@@ -473,6 +490,17 @@ func (e *Engine) join(st *State, site string) {
 		mem[r.Obj] = cells
 	}
 	locks := map[string]smt.Term{}
+	gomem := map[string]smt.Term{}
+	gocell := map[string]*Event{}
+	for _, th := range e.Threads {
+		for _, ev := range th.Events {
+			if ev.GoKey != "" {
+				if _, ok := gocell[ev.GoKey]; !ok {
+					gocell[ev.GoKey] = ev
+				}
+			}
+		}
+	}
 	stats := ComposeStats{Threads: len(e.Threads), Rounds: R}
 	for _, th := range e.Threads {
 		stats.EventsPerThr = append(stats.EventsPerThr, len(th.Events))
@@ -553,6 +581,10 @@ func (e *Engine) join(st *State, site string) {
 						cur = c.False
 					}
 					locks[ev.Lock] = c.And(cur, c.Not(w))
+					continue
+				}
+				if ev.GoKey != "" {
+					e.composeGo(st, ev, w, gomem, &cons)
 					continue
 				}
 				cells := mem[ev.Obj]
@@ -668,6 +700,19 @@ func (e *Engine) join(st *State, site string) {
 			st.Heap[o] = e.merge3(bval, cval, tval, o)
 		}
 	}
+	// final values of shared Go cells and channels go back into the main heap
+	for key, ev := range gocell {
+		cur, ok := gomem[key]
+		if !ok {
+			continue
+		}
+		if ev.GoObj.Kind == KChan {
+			e.chanFinal[ev.GoObj] = cur
+			continue
+		}
+		content := st.Heap[ev.GoObj].(Value)
+		st.Heap[ev.GoObj] = e.setPath(content, ev.GoPath, c.True, IntV{cur})
+	}
 	st.G = c.And(st.G, fin)
 	e.Stats = stats
 	e.ThreadsDone = append(e.ThreadsDone, e.Threads...)
@@ -684,7 +729,7 @@ func sameContent(a, b interface{}) bool {
 }
 
 // merge3 merges a thread's version t of an object into cur, relative to the common base.
-func (e *Engine) merge3(base, cur, t Value, o *Obj) Value {
+func (e *Engine) merge3(base, cur, t Value, o *Obj, path ...int) Value {
 	if sameValue(base, t) {
 		return cur
 	}
@@ -698,7 +743,7 @@ func (e *Engine) merge3(base, cur, t Value, o *Obj) Value {
 		if ok1 && ok2 && len(cv.F) == len(b.F) && len(tv.F) == len(b.F) {
 			out := make([]Value, len(b.F))
 			for i := range out {
-				out[i] = e.merge3(b.F[i], cv.F[i], tv.F[i], o)
+				out[i] = e.merge3(b.F[i], cv.F[i], tv.F[i], o, append(path, i)...)
 			}
 			return StructV{out}
 		}
@@ -708,10 +753,149 @@ func (e *Engine) merge3(base, cur, t Value, o *Obj) Value {
 		if ok1 && ok2 && len(cv.E) == len(b.E) && len(tv.E) == len(b.E) {
 			out := make([]Value, len(b.E))
 			for i := range out {
-				out[i] = e.merge3(b.E[i], cv.E[i], tv.E[i], o)
+				out[i] = e.merge3(b.E[i], cv.E[i], tv.E[i], o, append(path, i)...)
 			}
 			return ArrayV{out}
 		}
 	}
-	panic(e.unsupported(fmt.Sprintf("object %s: the same field is written by several threads but is not in a shared region", o)))
+	panic(e.unsupported(fmt.Sprintf("object %s (%v) path %v: the same field is written by several threads but is not in a shared region", o, o.Typ, path)))
+}
+
+func goKey(o *Obj, path []Sel) string {
+	var sb []byte
+	sb = append(sb, fmt.Sprintf("%s#%d", o.Name, o.ID)...)
+	for _, p := range path {
+		if p.T != nil {
+			return ""
+		}
+		sb = append(sb, fmt.Sprintf(".%d", p.I)...)
+	}
+	return string(sb)
+}
+
+// goCellAtomic: atomic operation on a scalar field of a pre-existing Go object.
+func (e *Engine) goCellAtomic(st *State, kind string, alt PtrAlt, et types.Type, a, b Value, site string) Value {
+	c := e.C
+	key := goKey(alt.Obj, alt.Path)
+	if key == "" {
+		panic(e.unsupported("atomic on Go object field with symbolic path at " + site))
+	}
+	w, _, ok := intWidth(et)
+	if !ok {
+		panic(e.unsupported("atomic on non-integer Go field " + et.String() + " at " + site))
+	}
+	if e.atomicCells == nil {
+		e.atomicCells = map[string]bool{}
+	}
+	e.atomicCells[key] = true
+	ev := &Event{GoKey: key, GoObj: alt.Obj, GoPath: alt.Path, N: w / 8, Where: site, Atomic: true}
+	tid := st.Th.ID
+	switch kind {
+	case "load":
+		ev.Kind = EvLoad
+		ev.Res = c.Fresh(fmt.Sprintf("gld_t%d", tid), w)
+		e.addEvent(st, ev)
+		return IntV{ev.Res}
+	case "store":
+		ev.Kind = EvStore
+		ev.Val = a.(IntV).T
+		e.addEvent(st, ev)
+		return nil
+	case "add":
+		ev.Kind = EvAdd
+		ev.Val = a.(IntV).T
+		ev.Res = c.Fresh(fmt.Sprintf("gadd_t%d", tid), w)
+		e.addEvent(st, ev)
+		return IntV{ev.Res}
+	case "swap":
+		ev.Kind = EvSwap
+		ev.Val = a.(IntV).T
+		ev.Res = c.Fresh(fmt.Sprintf("gswp_t%d", tid), w)
+		e.addEvent(st, ev)
+		return IntV{ev.Res}
+	case "cas":
+		ev.Kind = EvCAS
+		ev.Old = a.(IntV).T
+		ev.Val = b.(IntV).T
+		ev.Res = c.Fresh(fmt.Sprintf("gcas_t%d", tid), 0)
+		e.addEvent(st, ev)
+		return BoolV{ev.Res}
+	}
+	panic("goCellAtomic")
+}
+
+// chanEvent records a channel operation of a thread on a channel created before the spawn.
+// Only the element count and the closed flag are modelled; received values are zero values.
+func (e *Engine) chanEvent(st *State, kind EvKind, ch PtrV, site string) *Event {
+	a, ok := ch.single()
+	if !ok || a.Obj == nil || a.Obj.Kind != KChan {
+		panic(e.unsupported("channel operation on nil/ambiguous channel at " + site))
+	}
+	ev := &Event{Kind: kind, GoKey: fmt.Sprintf("chan#%d", a.Obj.ID), GoObj: a.Obj, Cap: a.Obj.N, Where: site}
+	if kind == EvChanTrySend || kind == EvChanTryRecv || kind == EvChanRecv {
+		ev.Res = e.C.Fresh(fmt.Sprintf("ch_t%d", st.Th.ID), 0)
+	}
+	e.addEvent(st, ev)
+	return ev
+}
+
+// composeGo applies one Go-cell / channel event under window guard w.
+func (e *Engine) composeGo(st *State, ev *Event, w smt.Term, gomem map[string]smt.Term, cons *[]smt.Term) {
+	c := e.C
+	cur, ok := gomem[ev.GoKey]
+	if !ok {
+		if ev.GoObj.Kind == KChan {
+			cc := st.Heap[ev.GoObj].(*ChanContent)
+			cur = c.BV(uint64(len(cc.Buf)), 32)
+			gomem[ev.GoKey+"/closed"] = c.Ite(cc.Closed, c.BV(1, 32), c.BV(0, 32))
+		} else {
+			v := e.getPath(st.Heap[ev.GoObj].(Value), ev.GoPath, nil)
+			cur = v.(IntV).T
+		}
+		gomem[ev.GoKey] = cur
+	}
+	add := func(t smt.Term) { *cons = append(*cons, t) }
+	one := c.BV(1, 32)
+	switch ev.Kind {
+	case EvLoad:
+		add(c.Implies(w, c.Eq(ev.Res, cur)))
+	case EvStore:
+		gomem[ev.GoKey] = c.Ite(w, ev.Val, cur)
+	case EvAdd:
+		nv := c.Add(cur, ev.Val)
+		add(c.Implies(w, c.Eq(ev.Res, nv)))
+		gomem[ev.GoKey] = c.Ite(w, nv, cur)
+	case EvSwap:
+		add(c.Implies(w, c.Eq(ev.Res, cur)))
+		gomem[ev.GoKey] = c.Ite(w, ev.Val, cur)
+	case EvCAS:
+		okT := c.Eq(cur, ev.Old)
+		add(c.Implies(w, c.Eq(ev.Res, okT)))
+		gomem[ev.GoKey] = c.Ite(c.And(w, okT), ev.Val, cur)
+	case EvChanSend:
+		room := c.Ult(cur, c.BV(uint64(ev.Cap), 32))
+		if ev.Cap == 0 {
+			panic(e.unsupported("send on unbuffered channel between threads at " + ev.Where))
+		}
+		add(c.Implies(w, room))
+		gomem[ev.GoKey] = c.Ite(w, c.Add(cur, one), cur)
+	case EvChanTrySend:
+		room := c.Ult(cur, c.BV(uint64(ev.Cap), 32))
+		add(c.Implies(w, c.Eq(ev.Res, room)))
+		gomem[ev.GoKey] = c.Ite(c.And(w, room), c.Add(cur, one), cur)
+	case EvChanRecv:
+		closed := c.Ne(gomem[ev.GoKey+"/closed"], c.BV(0, 32))
+		has := c.Ne(cur, c.BV(0, 32))
+		add(c.Implies(w, c.Or(has, closed)))
+		add(c.Implies(w, c.Eq(ev.Res, has)))
+		gomem[ev.GoKey] = c.Ite(c.And(w, has), c.Sub(cur, one), cur)
+	case EvChanTryRecv:
+		has := c.Ne(cur, c.BV(0, 32))
+		add(c.Implies(w, c.Eq(ev.Res, has)))
+		gomem[ev.GoKey] = c.Ite(c.And(w, has), c.Sub(cur, one), cur)
+	case EvChanClose:
+		gomem[ev.GoKey+"/closed"] = c.Ite(w, one, gomem[ev.GoKey+"/closed"])
+	default:
+		panic(e.unsupported("go-cell event kind"))
+	}
 }
